@@ -14,7 +14,9 @@ def oracles_():
 
 MANIFEST = {
     "text": "Coq theorems: the XML text printer/lexer pair is an exact round trip for every string of accepted characters of any "
-            "length (C01_xml_text_roundtrip*). The models are tied to the tree by scraped escape tables (T1) and by "
+            "length (C01_xml_text_roundtrip*), including CR and, in attribute values, TAB and LF, which the printer writes as "
+            "character references since 6fdbff2 / 47fa563 (the lexer reads them back; its white-space-only flag is stated "
+            "exactly). The models are tied to the tree by scraped escape tables (T1) and by "
             "differential runs of the extracted model against the static C functions (T2).",
     "note": "Modelled (not verified) C: lyxml_dump_text, lyxml_parse_value, ly_getutf8/pututf8/checkutf8. Trusted: Coq kernel, "
             "extraction, drivers/generators. Document-level printers/parsers are covered by API-level oracles (testing).",
